@@ -71,11 +71,11 @@ def table():
                 b = numpy.where(b == 0, 2 if k == "int" else 1.5, b)
                 return [a, b], lambda M, x, y: getattr(M, nm)(x, y), {}, []
             sh = gen.choice(r, [(), (3,), (4,), (2, 2), (2, 3)])
-            a = r.choice([1.0, 0.7, 2.0, -1.0, 0.3, 4.9, -0.7], size=sh)
-            b = r.choice([0.1, 0.3, 0.7, -0.1, 0.2], size=sh if r.random() < .5 else ())
+            a = r.choice([1.0, 0.7, 2.0, -1.0, 0.3, 4.9, -0.7, 5.0, 7.0, 3.0], size=sh)
+            b = r.choice([0.1, 0.3, 0.7, -0.1, 0.2, 3.0, 10.0, 2.5], size=sh if r.random() < .5 else ())
             return [numpy.asarray(a), numpy.asarray(b)], lambda M, x, y: getattr(M, nm)(x, y), {"values": "decimal fractions"}, []
         T[nm] = mk
-    for nm in ("floor_divide", "divide", "remainder", "divmod"):
+    for nm in ("floor_divide", "divide", "true_divide", "remainder", "mod", "divmod"):
         float_division(nm)
 
     def closeness(nm):
@@ -187,6 +187,10 @@ def plain(x):
     return ("plain", x)
 
 
+SUMMING = {"sum", "cumsum", "prod", "cumprod", "mean", "inner", "dot", "matmul", "tensordot", "einsum", "outer", "diff", "ediff1d",
+           "add/reduce", "multiply/reduce", "add/accumulate", "cumsum/accumulate"}
+
+
 def same(got, want, nm):
     kind, g = got
     if isinstance(want, (list, tuple)):
@@ -205,7 +209,13 @@ def same(got, want, nm):
     if w_arr.dtype.kind in "bi" and kind != "poly" and g_arr.dtype.kind != w_arr.dtype.kind:
         return f"result type {g_arr.dtype} but numpy returns {w_arr.dtype}"
     if w_arr.dtype.kind in "fc" or g_arr.dtype.kind in "fc":
-        ok = numpy.allclose(g_arr.astype(complex), w_arr.astype(complex), rtol=1e-12, atol=1e-12)
+        if nm in SUMMING:
+            # sums of several floating-point terms: the order of summation is not part of the claim
+            ok = numpy.allclose(g_arr.astype(complex), w_arr.astype(complex), rtol=1e-12, atol=1e-12)
+        else:
+            # element-wise functions, bit for bit: a constant polynomial goes through the same numpy kernel as the plain
+            # array (seeded change C11-8: x * (1/d) instead of x / d is one ulp off); nan == nan here
+            ok = numpy.array_equal(g_arr.astype(complex), w_arr.astype(complex), equal_nan=True)
     else:
         ok = numpy.array_equal(g_arr, w_arr)
     return None if ok else f"values {g_arr.tolist()} != numpy's {w_arr.tolist()}"
